@@ -17,6 +17,7 @@ import (
 	"encoding/hex"
 	"encoding/json"
 	"fmt"
+	"math"
 	"regexp"
 	"strconv"
 	"strings"
@@ -154,6 +155,9 @@ func (p *ProposerConfig) UnmarshalJSON(input []byte) error {
 		}
 		if tmp < 0 {
 			return errors.New("grace cannot be negative")
+		}
+		if tmp > math.MaxInt64/int64(time.Millisecond) {
+			return errors.New("grace too large")
 		}
 		grace := time.Duration(tmp) * time.Millisecond
 		p.Grace = &grace
